@@ -971,37 +971,51 @@ func c06TunnelFlag(c *Ctx) {
 			if !isAtomicOnField(ci, "tunnelConnector", "Store", "Swap", "CompareAndSwap") {
 				continue
 			}
-			nStore++
 			args := ci.Common().Args
-			v := strip(args[len(args)-1])
 			key := "store/" + c.fnName(f)
-			if isNilConst(v) {
-				c.ok(key+"/nil", c.ipos(ci.(ssa.Instruction)), "stores nil")
-				continue
+			// the stored pointer, per incoming edge when it was picked into a local first
+			type cand struct {
+				v  ssa.Value
+				at *ssa.BasicBlock
 			}
-			al, ok := v.(*ssa.Alloc)
-			if !ok {
-				c.undecided(key, "cannot tell which function value the stored pointer refers to")
-				continue
-			}
-			var vals []ssa.Value
-			for _, r := range *al.Referrers() {
-				if st, ok := r.(*ssa.Store); ok && st.Addr == ssa.Value(al) {
-					vals = append(vals, st.Val)
+			cands := []cand{{strip(args[len(args)-1]), ci.Block()}}
+			if phi, ok := cands[0].v.(*ssa.Phi); ok {
+				cands = nil
+				for i, e := range phi.Edges {
+					cands = append(cands, cand{strip(e), phi.Block().Preds[i]})
 				}
 			}
-			isFn := func(x ssa.Value) bool {
-				x = strip(x)
-				if u, ok := x.(*ssa.UnOp); ok && u.X == ssa.Value(al) {
-					return true
+			nStore += len(cands)
+			for _, cd := range cands {
+				v := cd.v
+				if isNilConst(v) {
+					c.ok(key+"/nil", c.ipos(ci.(ssa.Instruction)), "stores nil")
+					continue
 				}
-				return len(vals) == 1 && x == strip(vals[0])
+				al, ok := v.(*ssa.Alloc)
+				if !ok {
+					c.undecided(key, "cannot tell which function value the stored pointer refers to")
+					continue
+				}
+				var vals []ssa.Value
+				for _, r := range *al.Referrers() {
+					if st, ok := r.(*ssa.Store); ok && st.Addr == ssa.Value(al) {
+						vals = append(vals, st.Val)
+					}
+				}
+				isFn := func(x ssa.Value) bool {
+					x = strip(x)
+					if u, ok := x.(*ssa.UnOp); ok && u.X == ssa.Value(al) {
+						return true
+					}
+					return len(vals) == 1 && x == strip(vals[0])
+				}
+				good := len(vals) == 1 && factCmp(factsAt(cd.at), token.NEQ, isFn, isNilConst)
+				c.check(good, key+"/non-nil", c.ipos(ci.(ssa.Instruction)), "a connector is stored only after it was tested non-nil", "a pointer to a connector that may be nil is stored: the pumps' 'pointer != nil' then tells the detector a tunnel exists, a control-mode trigger with a port is accepted and nothing can be dialled")
 			}
-			good := len(vals) == 1 && factCmp(factsAt(ci.Block()), token.NEQ, isFn, isNilConst)
-			c.check(good, key+"/non-nil", c.ipos(ci.(ssa.Instruction)), "a connector is stored only after it was tested non-nil", "a pointer to a connector that may be nil is stored: the pumps' 'pointer != nil' then tells the detector a tunnel exists, a control-mode trigger with a port is accepted and nothing can be dialled")
 		}
 	}
 	if nStore < 4 {
-		c.undecided("stores", fmt.Sprintf("expected the four stores of the two SetTunnelConnector methods, found %d", nStore))
+		c.undecided("stores", fmt.Sprintf("expected the four stored values (nil and non-nil) of the two SetTunnelConnector methods, found %d", nStore))
 	}
 }
